@@ -294,6 +294,31 @@ class Prop(object):
                     if w not in found and f(d):
                         found[w] = doc
                 n += 1
+            # deterministic signature schemes: documents whose SIGNATURE integers have leading zero octets (Ed25519: R or S with one and with two zero
+            # octets in front - 1 in 256 / 1 in 65536 signatures; RSA: one zero octet), found by signing with the reference
+            if hname == 'SHA256' and raw['alg'] in ('eddsa', 'rsa'):
+                if raw['alg'] == 'eddsa':
+                    sigwant = {'sig-R-one-zero-octet': lambda m: (m[0] >> 240) == 0 and (m[0] >> 232) != 0, 'sig-S-one-zero-octet': lambda m: (m[1] >> 240) != 0 and (m[1] >> 248) == 0,
+                               'sig-R-two-zero-octets': lambda m: (m[0] >> 240) == 0, 'sig-S-two-zero-octets': lambda m: (m[1] >> 240) == 0}
+                    sigwant['sig-R-one-zero-octet'] = lambda m: (m[0] >> 248) == 0 and (m[0] >> 240) != 0
+                    limit = 400000
+                else:
+                    nb = (raw['n'].bit_length() + 7) // 8 * 8
+                    sigwant = {'sig-one-zero-octet': lambda m: (m[0] >> (nb - 8)) == 0}
+                    limit = 2500
+                signf = rsig.SIGN[raw['alg']]
+                n2 = 0
+                sfound = {}
+                while len(sfound) < len(sigwant) and n2 < limit:
+                    doc = b'signature shape %d' % n2
+                    d = rsig.digest(probe['halg'], rsig.hash_input(0, probe['pkalg'], probe['halg'], probe['hashed'], {'doc': doc}))
+                    m = signf(raw, probe['halg'], d)
+                    for w, f in sigwant.items():
+                        if w not in sfound and f(m):
+                            sfound[w] = doc
+                    n2 += 1
+                found.update(sfound)
+                r.extra['signature_shape_search'] = {'tried': n2, 'found': sorted(sfound)}
             for w, doc in sorted(found.items()):
                 if case.get('only') and case['only'] != w:
                     continue
